@@ -55,8 +55,14 @@ B_CODE = {a: i for i, a in enumerate(B_ATOMS) if not a.startswith("?")}
 C_ATOMS = [f"cmp({ATTR_OF[m]}.value|thr)" for m in MODES] + ["cmp(0|thr)", "cmp(1|thr)"] \
     + [f"cmp({ATTR_OF[m]}.value|thr[gt])" for m in MODES] + ["cmp(0|thr[gt])", "cmp(1|thr[gt])"]
 C_CODE = {a: i for i, a in enumerate(C_ATOMS)}
-EXC_CODE = {"TypeError": 1, "IndexError": 2, "AssertionError": 3, "AttributeError": 4, "KeyError": 5, "ValueError": 6,
-            "NotImplementedError": 7}
+# C01, C02, C03 and C08 have no error clause: what a table records at a leaf where the kernel raises is THAT the valuation is
+# rejected (an IoU threshold outside [0, 1]), not the exception CLASS - `assert` -> `raise ValueError`, or a subclass, is the same
+# table.  Every exception is therefore recorded as the one result `raise:Rejected` (code 3, the code the model skeletons of
+# lean/PEval/Lemmas/MatchKernelsDT.lean use for their rejection leaf); the class names observed are kept in OBSERVED_EXC for the
+# evidence.  A kernel that raises where the model returns a value still differs from the model (raise vs value).
+REJECTED = "Rejected"
+EXC_CODE = {REJECTED: 3}
+OBSERVED_EXC: Dict[str, int] = {}
 # results that are neither a bool nor an exception: the status pairs of get_status, the cells of the score table
 OTHER_CODE = {"FP,None": 0, "FP,TN": 1, "TP,TP": 2, "FP,FP": 3, "FP,FN": 4,
               "cell:nan": 10, "cell:score,label_ok": 11, "cell:score,label_not_ok": 12}
@@ -578,7 +584,8 @@ def _status_name(x):
 
 def _result_of(val, exc):
     if exc is not None:
-        return "raise:" + type(exc).__name__
+        OBSERVED_EXC[type(exc).__name__] = OBSERVED_EXC.get(type(exc).__name__, 0) + 1
+        return "raise:" + REJECTED
     if isinstance(val, SymCmp):
         return "ret:" + str(val._v)
     if val is True or val is False:
@@ -906,7 +913,7 @@ def _ret(b):
     return _leaf("ret:" + str(bool(b)))
 
 
-_ASSERT = _leaf("raise:AssertionError")
+_ASSERT = _leaf("raise:" + REJECTED)
 
 
 def _mode_chain(f):
